@@ -86,6 +86,21 @@ pub fn arch(job_path: &str, out_path: &str, dir: &str) -> Result<(), String> {
             m.insert("net_in".into(), describe_network(&bn));
             let formulae: Vec<String> = job["formulae"].as_array().map(|a| a.iter().map(|x| x.as_str().unwrap_or("").to_string()).collect()).unwrap_or_default();
             let path = format!("{dir}/{id}.zip");
+            if job["overwrite"].as_bool().unwrap_or(false) {
+                // history: the path already holds an OLDER, LARGER archive (an earlier run with more results)
+                let mut old: LabelToSetMap = HashMap::new();
+                old.insert("old_unit".to_string(), g.mk_unit_colored_vertices());
+                for i in 0..25 {
+                    for (l, s) in sets.iter() {
+                        old.insert(format!("old_{i}_{l}"), s.clone());
+                    }
+                    old.insert(format!("old_{i}"), g.mk_unit_colored_vertices());
+                }
+                let old_formulae: Vec<String> = (0..40).map(|i| format!("AG EF (true & true & true & true) | {i}")).collect();
+                build_result_archive(old, &path, bn.to_string().as_str(), old_formulae).map_err(|e| e.to_string())?;
+                let ipath = format!("{dir}/{id}-initial.zip");
+                std::fs::copy(&path, &ipath).map_err(|e| e.to_string())?;
+            }
             build_result_archive(sets.clone(), &path, bn.to_string().as_str(), formulae).map_err(|e| e.to_string())?;
             m.insert("archive".into(), json!(path));
             // the archive without results (model + formula list only)
